@@ -1,17 +1,19 @@
 #!/bin/bash
 # usage: seed_regress.sh [seed id ...]   -- applies every stored seeded change to /repo in turn, runs the quick check of the
 # property it breaks, undoes it, and prints one line per change.  /repo must be clean; it is clean again afterwards.
-cd /verif
-[ -n "$(git -C /repo status --short)" ] && { echo "/repo is not clean"; exit 2; }
-rm -rf /dev/shm/evidence.keep && cp -r /verif/evidence /dev/shm/evidence.keep
+cd "$(dirname "$0")/.."
+ROOT=$(pwd); REPO=${VERIF_REPO:-/repo}
+[ -x .build/bbverif ] || ./setup.sh >/dev/null 2>&1
+[ -n "$(git -C $REPO status --short)" ] && { echo "$REPO is not clean"; exit 2; }
+rm -rf /dev/shm/evidence.keep && cp -r $ROOT/evidence /dev/shm/evidence.keep
 ids=${@:-$(ls -d seeded/*/ | xargs -n1 basename)}
 for id in $ids; do
   d=seeded/$id; pid=$(python3 -c "import json;print(json.load(open('$d/meta.json'))['breaks'])")
-  git -C /repo apply /verif/$d/patch.diff || { echo "$id APPLY-FAILED"; continue; }
+  git -C $REPO apply $ROOT/$d/patch.diff || { echo "$id APPLY-FAILED"; continue; }
   out=$(timeout 2400 ./check $pid --tier quick 2>&1); rc=$?
-  git -C /repo checkout -q -- . ; git -C /repo clean -fdq
+  git -C $REPO checkout -q -- . ; git -C $REPO clean -fdq
   v=$(echo "$out" | grep VIOLATION | head -1)
   echo "$id $pid rc=$rc ${v:-NOT-REPORTED} | $(echo "$out" | grep '^\[check\]' | tail -1)"
 done
-rm -rf /verif/evidence && mv /dev/shm/evidence.keep /verif/evidence
-[ -n "$(git -C /repo status --short)" ] && echo "WARNING: /repo not clean"
+rm -rf $ROOT/evidence && mv /dev/shm/evidence.keep $ROOT/evidence
+[ -n "$(git -C $REPO status --short)" ] && echo "WARNING: /repo not clean"
